@@ -354,7 +354,6 @@ func VxC14_LogSpecialValues() {
 	}
 }
 
-
 // vxExpected: the rank-g quantile of an identity-binned histogram under the 0-based (base=0) or
 // 1-based (base=1) reading of "the g-th smallest sample": NaN in the under/over-flow, otherwise
 // bin + (rank within bin)/count. ok=false where the reading names no sample (1-based, g=0).
